@@ -26,6 +26,9 @@ if not _NOF15:
 # module service measures against the host clock; recorded under VERIF_RECORD_DIR and replayed later on replicas.
 CLOCK = dict(binary="oracle", mode="clock", cfg="")
 
+# histories recorded (VERIF_RECORD_DIR) and replayed by the cross-module checks C11 / C12
+RECORD = [dict(binary="oracle", n=T(3, 12), len=30, cfg="users=2,provs=3,funds=60,maxfeeds=3,maxtimeout=3")]
+
 PROPS = {
     "C17": ModuleCheck("oracle", "Oracle.tla", "OracleTrace.tla", "OracleTrace.cfg", ORACLE_CLAUSES_C17,
                        ORACLE_MC, ORACLE_GEN, ORACLE_RND, scenarios=ORACLE_SCN,
